@@ -225,7 +225,12 @@ func Convert(value any, typ reflect.Type) (any, error) { //nolint: gocyclo
 		case reflect.Map:
 			result := reflect.MakeSlice(typ, 0, rv.Len())
 			for _, key := range SortedMapKeys(rv) {
-				item, err := convertElement(rv.MapIndex(key).Interface(), typ.Elem())
+				// a NaN key is in the map and never found there
+				var elem any
+				if ev := rv.MapIndex(key); ev.IsValid() {
+					elem = ev.Interface()
+				}
+				item, err := convertElement(elem, typ.Elem())
 				if err != nil {
 					return nil, err
 				}
